@@ -129,6 +129,11 @@ func applyUserCode(r *gen.Rand, files []string, wild bool) (*userEdit, error) {
 			if !wild {
 				docs = docPool[:3]
 			}
+			// named results, as a user may write them (also on a subscription's channel result)
+			if res := fd.Type.Results; res != nil && len(res.List) == 2 && len(res.List[0].Names) == 0 && r.Chance(1, 3) {
+				t0 := src[fset.Position(res.List[0].Type.Pos()).Offset:fset.Position(res.List[0].Type.End()).Offset]
+				repls = append(repls, repl{fset.Position(res.Pos()).Offset, fset.Position(res.End()).Offset, "(res " + t0 + ", err error)"})
+			}
 			doc := gen.Pick(r, docs)
 			if doc != "" {
 				doc = fmt.Sprintf(doc, fd.Name.Name)
